@@ -82,7 +82,7 @@ def run(facts, rep, tier, ctx):
         if o["rule"] == "R16.2":
             k += 1
             rep.ob("R17.3", o["fn"], o["key"].split("|")[2], o["ok"], o["detail"], o["loc"])
-    rep.floor("lock re-entrancy obligations", k, 13)
+    rep.floor("lock re-entrancy obligations", k, 10)
     # R17.3s what an in-memory create refuses is decided by looking up the target and its parent — never by a scan over the other
     # entries of the map ("nothing can be created below a file": `parent.starts_with(candidate)` without a '/' boundary makes a
     # sibling file /a refuse create_dir_all(/ab/c))
